@@ -176,8 +176,10 @@ Full statement (false on the real code, see the counterexample below):
 -/
 /-- **Signed enum**, partial: `Read()` is the two's-complement value at the field width
 **provided the field is as wide as the enum's underlying type** (`w = uw`).  Missing: fields
-narrower than the underlying type — there the code zero-extends (finding
-`signed-enum-in-field-narrower-than-underlying-type`). -/
+narrower than the underlying type — there the code zero-extends (open finding
+`signed-enum-in-field-narrower-than-underlying-type`; the proposed sign extension was
+rejected upstream-side because `emboss_enum_view_test.cc` pins the zero-extending
+behaviour, see `C02_enum_read_signed_actual` for what the code does there). -/
 theorem C02_enum_read_signed_partial (h : Placed bb o w) (direct : Bool)
     (hd : direct = true → o = 0 ∧ w = bb.c) :
     (fieldView (.enum w true) direct bb o w).ok = true ∧
@@ -186,6 +188,42 @@ theorem C02_enum_read_signed_partial (h : Placed bb o w) (direct : Bool)
   rw [fieldView_read_of_ne_bcd h direct hd _ (by simp)]
   simp only [View.decode, fieldView]
   rw [toSigned_eq_twos (fieldBits_lt bb o w)]
+
+/-- **Signed enum, the behaviour of the code for every `(w, uw, W)`** (`w ≤ uw` is the
+`static_assert` of `EnumView`; the buffer's value type width `W ≥ w` is arbitrary):
+`Read()` is `static_cast<Enum>(covered bits)`, i.e. the covered bits reinterpreted at the
+width of the *underlying type* — two's complement at the field width when `w = uw`, and the
+plain unsigned value of the bits (zero extension, never negative) when `w < uw`.  The gap
+between the second case and the documented two's-complement value at the field width is
+exactly the open finding `signed-enum-in-field-narrower-than-underlying-type`: the two
+agree iff the top bit of the field is clear. -/
+theorem C02_enum_read_signed_actual (h : Placed bb o w) (uw : Nat) (huw : w ≤ uw)
+    (direct : Bool) (hd : direct = true → o = 0 ∧ w = bb.c) :
+    (fieldView (.enum uw true) direct bb o w).ok = true ∧
+    (fieldView (.enum uw true) direct bb o w).read = some (toSigned uw (fieldBits bb o w)) ∧
+    (w = uw → toSigned uw (fieldBits bb o w) = twos w (fieldBits bb o w)) ∧
+    (w < uw → toSigned uw (fieldBits bb o w) = (fieldBits bb o w : Int)) ∧
+    (w < uw → (toSigned uw (fieldBits bb o w) = twos w (fieldBits bb o w) ↔
+      fieldBits bb o w < 2 ^ (w - 1))) := by
+  have hlt := fieldBits_lt bb o w
+  have hzero : w < uw → toSigned uw (fieldBits bb o w) = (fieldBits bb o w : Int) := fun hw =>
+    toSigned_of_lt (lt_pow_of_lt_of_le hlt (by omega)) (by omega)
+  refine ⟨fieldView_ok_of_ne_bcd h direct hd _ (by simp), ?_, ?_, hzero, ?_⟩
+  · rw [fieldView_read_of_ne_bcd h direct hd _ (by simp)]
+    simp only [View.decode, fieldView]
+  · intro he; subst he; exact toSigned_eq_twos hlt
+  · intro hw
+    rw [hzero hw]
+    unfold twos
+    have hp := two_pow_pos' w
+    constructor
+    · intro he; split at he <;> omega
+    · intro hs; rw [if_pos hs]
+
+-- non-vacuity (tests): `int16_t` enum in 5 bits of a 24-bit big-endian container: bits 26
+-- read 26 (documented: 26 - 32 = -6); `int8_t` enum in a full byte reads two's complement
+example : (fieldView (.enum 16 true) false exBB 9 5).read = some 26 ∧
+    twos 5 (fieldBits exBB 9 5) = -6 := by decide
 
 /-- **Summary**: for every view type meeting its static side conditions, `Read()` is the
 documented decoding of the covered bits (`none` = not `Ok()`, only possible for `Bcd`). -/
